@@ -166,13 +166,13 @@ mod axv_wire {
             _ => assert!(false),
         }
     }
-    //@ob [C20:string.length_prefix_is_byte_length] level=bounded bound="every string of 0..=3 bytes of valid UTF-8 (all 1-, 2- and 3-byte scalar values)" text="write_string emits the BYTE length of the string as its little-endian u32 prefix, followed by exactly its bytes -- so the decoder, which counts bytes, reads back what was written also for non-ASCII text"
+    //@ob [C20:string.length_prefix_is_byte_length] level=bounded bound="every string of 0..=2 bytes of valid UTF-8 (all 1- and 2-byte scalar values)" text="write_string emits the BYTE length of the string as its little-endian u32 prefix, followed by exactly its bytes -- so the decoder, which counts bytes, reads back what was written also for non-ASCII text"
     #[kani::proof]
     #[kani::unwind(8)]
     fn string_length_prefix_is_byte_length() {
-        let raw: [u8; 3] = kani::any();
+        let raw: [u8; 2] = kani::any();
         let n: usize = kani::any();
-        kani::assume(n <= 3);
+        kani::assume(n <= 2);
         if let Ok(s) = std::str::from_utf8(&raw[..n]) {
             let mut buf: Vec<u8> = Vec::new();
             write_string(&mut buf, s);
